@@ -75,7 +75,7 @@ func genC08(t *Tape, tier string) *Scenario {
 	x.Where = []string{"before-helo", "greeted", "after-mail", "after-rcpt", "in-bdat-transfer"}[pos]
 	panicWhere := ""
 	if x.Kind == 5 {
-		panicWhere = []string{"NewSession", "Mail", "Rcpt", "Data"}[t.Intn(4)]
+		panicWhere = []string{"NewSession", "Mail", "Rcpt", "Data", "Reset"}[t.Intn(5)]
 		x.Where = "panic-in-" + panicWhere
 		switch panicWhere {
 		case "NewSession":
@@ -84,6 +84,8 @@ func genC08(t *Tape, tier string) *Scenario {
 			pos = 1
 		case "Rcpt":
 			pos = 2
+		case "Reset":
+			pos = 1 + t.Intn(3)
 		default:
 			pos = 3
 		}
@@ -149,6 +151,10 @@ func genC08(t *Tape, tier string) *Scenario {
 			trig = []Step{{Kind: kMail, Data: line("MAIL FROM:<pn-s@a.example>")}}
 		case "Rcpt":
 			trig = []Step{{Kind: kRcpt, Data: line("RCPT TO:<pn-r@b.example>")}}
+		case "Reset":
+			// Reset is the one callback made with the connection's mutex held
+			cp.PanicReset = 1
+			trig = []Step{{Kind: kRset, Data: []byte("RSET\r\n")}}
 		default:
 			cp.Data = append(cp.Data, DataPlan{V: Verdict{Kind: vPanic, Msg: "in Data"}, PanicWhen: t.Intn(2)})
 			if t.Bool() {
